@@ -17,6 +17,9 @@ abbrev isCfb (bs : Bytes) : Bool := atPos bs pCfb 0
 abbrev isCabHdr (bs : Bytes) : Bool := atPos bs pCab 0
 abbrev hasAsm (bs : Bytes) : Bool := containsIn bs pAsm1 256 || containsIn bs pAsm2 256
 abbrev isMachoLE (bs : Bytes) : Bool := atPos bs pMacho64 0 || atPos bs pMacho32 0
+abbrev isMachoBE (bs : Bytes) : Bool := atPos bs pMacho64BE 0 || atPos bs pMacho32BE 0
+/-- either byte order -/
+abbrev isMacho (bs : Bytes) : Bool := isMachoLE bs || isMachoBE bs
 abbrev isFat (bs : Bytes) : Bool := atPos bs pFat 0
 abbrev isXar (bs : Bytes) : Bool := atPos bs pXar 0
 abbrev isPgpBin (bs : Bytes) : Bool := atPos bs [0x89] 0 || atPos bs [0xc2] 0 || atPos bs [0xc4] 0
@@ -26,9 +29,34 @@ theorem detect_unfold (bs : Bytes) : detect bs =
     else if hasSignedData bs then .pkcs7 else if isTar bs then .unknown
     else if isMZ bs then (if mzProbe bs then .pecoff else .unknown)
     else if isCfb bs then .msi else if isCabHdr bs then .cab else if hasAsm bs then .appManifest
-    else if isMachoLE bs then .machO else if isFat bs then .machOFat else if isXar bs then .xar
+    else if isMacho bs then .machO else if isFat bs then .machOFat else if isXar bs then .xar
     else if isPgpBin bs then .pgp else .unknown := by
   simp [detect, detectWith, rules, Rule.fires, Test.eval, runAction, Bool.or_assoc]
+
+/-- the list with the `MZ` probe over the original 4096-byte reader -/
+theorem detectOrigFM1_unfold (bs : Bytes) : detectOrigFM1 bs =
+    if isRpm bs then .rpm else if isDebHdr bs then .deb else if isArmor bs then .pgp else if hasCtl bs then .cat
+    else if hasSignedData bs then .pkcs7 else if isTar bs then .unknown
+    else if isMZ bs then (if mzProbeOrig bs then .pecoff else .unknown)
+    else if isCfb bs then .msi else if isCabHdr bs then .cab else if hasAsm bs then .appManifest
+    else if isMacho bs then .machO else if isFat bs then .machOFat else if isXar bs then .xar
+    else if isPgpBin bs then .pgp else .unknown := by
+  simp [detectOrigFM1, detectWith, rulesOrigFM1, Rule.fires, Test.eval, runAction, Bool.or_assoc]
+
+/-- the list before the big-endian Mach-O magics were added -/
+theorem detectOrigFM3_unfold (bs : Bytes) : detectOrigFM3 bs =
+    if isRpm bs then .rpm else if isDebHdr bs then .deb else if isArmor bs then .pgp else if hasCtl bs then .cat
+    else if hasSignedData bs then .pkcs7 else if isTar bs then .unknown
+    else if isMZ bs then (if mzProbe bs then .pecoff else .unknown)
+    else if isCfb bs then .msi else if isCabHdr bs then .cab else if hasAsm bs then .appManifest
+    else if isMachoLE bs then .machO else if isFat bs then .machOFat else if isXar bs then .xar
+    else if isPgpBin bs then .pgp else .unknown := by
+  simp [detectOrigFM3, detectWith, rulesOrigFM3, Rule.fires, Test.eval, runAction, Bool.or_assoc]
+
+/-- a prefix test whose pattern starts with byte `b` -/
+def Test.prefixByte (b : UInt8) : Test → Bool
+  | .at 0 (c :: _) => c == b
+  | _ => false
 
 /-! ### prefixes -/
 
@@ -104,5 +132,24 @@ theorem leVal_take2_of_small (l : Bytes) (h : leVal (l.take 4) < 65536) : leVal 
   | a :: b :: c :: d :: _ =>
     have := a.toNat_lt; have := b.toNat_lt; have := c.toNat_lt; have := d.toNat_lt
     simp [leVal] at h ⊢; omega
+
+theorem leVal_take2_mod (l : Bytes) (h : 4 ≤ l.length) : leVal (l.take 2) = leVal (l.take 4) % 65536 := by
+  match l, h with
+  | a :: b :: c :: d :: _, _ =>
+    have := a.toNat_lt; have := b.toNat_lt; have := c.toNat_lt; have := d.toNat_lt
+    simp [leVal]; omega
+
+/-- four bytes are determined by their big-endian value -/
+theorem be4_eq (l : Bytes) (h4 : l.length = 4) : l = beBytes 4 (beVal l) := by
+  match l, h4 with
+  | [a, b, c, d], _ =>
+    have := a.toNat_lt; have := b.toNat_lt; have := c.toNat_lt; have := d.toNat_lt
+    simp [beVal, beBytes]
+    have e1 : (a.toNat * 16777216 + (b.toNat * 65536 + (c.toNat * 256 + d.toNat))) / 16777216 % 256 = a.toNat := by omega
+    have e2 : (a.toNat * 16777216 + (b.toNat * 65536 + (c.toNat * 256 + d.toNat))) / 65536 % 256 = b.toNat := by omega
+    have e3 : (a.toNat * 16777216 + (b.toNat * 65536 + (c.toNat * 256 + d.toNat))) / 256 % 256 = c.toNat := by omega
+    have e4 : (a.toNat * 16777216 + (b.toNat * 65536 + (c.toNat * 256 + d.toNat))) % 256 = d.toNat := by omega
+    rw [e1, e2, e3, e4]
+    simp
 
 end Relic.Magic
